@@ -131,6 +131,14 @@ func (g *Global) computeModSets() {
 				continue
 			}
 			ms := g.modsets[fn]
+			if con := g.contractFor(fn); con != nil {
+				for _, gm := range con.GhostMods {
+					if !ms.comps["$g:"+gm] {
+						ms.comps["$g:"+gm] = true
+						changed = true
+					}
+				}
+			}
 			if con := g.contractFor(fn); con != nil && con.HasMod {
 				// callers rely on the contract's frame; the body is checked against it
 				if len(ms.comps) == 0 && !ms.all {
